@@ -59,6 +59,9 @@ Record world_ok (W : world) : Prop := {
     fst (w_bin W BAdd (VStr s1) b n) = fst (w_bin W BAdd (VStr s2) b n) /\
     match snd (w_bin W BAdd (VStr s1) b n), snd (w_bin W BAdd (VStr s2) b n) with
     | Val _, Val _ => True | Throw x, Throw y => x = y | _, _ => False end;
+  (* x == null: true exactly for null and undefined, no conversion of x (7.2.14 steps 2-3, 14) *)
+  ok_looseeq_null_r : forall a n, w_bin W BLooseEq a VNull n = ([], Val (VBool (nullish a)));
+  ok_looseeq_null_l : forall a n, w_bin W BLooseEq VNull a n = ([], Val (VBool (nullish a)));
   (* numbers: IsLooselyEqual on two Numbers is Number::equal *)
   ok_looseeq_num : forall a b n, w_bin W BLooseEq (VNum a) (VNum b) n = ([], Val (VBool (num_eq a b)));
   ok_lt_str : forall a b n, w_bin W BLt (VStr a) (VStr b) n = ([], Val (VBool (spec_string_lt a b)));
